@@ -442,12 +442,39 @@ def oracle_select(st, opt, arg, aux):
         if len(set(names)) != len(names):
             raise Silent("two free signals of one name: a DBC file cannot carry them (the writer numbers them)")
     elif opt == "merge":
+        # --merge filename[:ecu=SOMEECU][:frame=FRAME1][:frame=FRAME2]: the whole file, or only the named ECUs (with the frames
+        # they send and receive) and frames of it, are merged INTO the matrix; what is there stays as it is and wins on an
+        # identifier conflict
         tgt = st
-        for other in aux:
-            for f in frames_in_order(other):
-                add_frame_copy(tgt, f, other)
-            for k, v in other["env_vars"].items():
-                tgt["env_vars"].setdefault(k, copy.deepcopy(v))
+        other = aux[0]
+        for spec in arg.split(","):
+            parts = spec.split(":")
+            if len(parts) == 1:
+                for f in frames_in_order(other):
+                    add_frame_copy(tgt, f, other)
+                for k, v in other["env_vars"].items():
+                    tgt["env_vars"].setdefault(k, copy.deepcopy(v))
+            for part in parts[1:]:
+                kv = part.split("=")
+                if len(kv) != 2 or kv[0] not in ("ecu", "frame") or not plain(kv[1]):
+                    raise Silent("merge sub-option")
+                if kv[0] == "ecu":
+                    e = kv[1]
+                    if e not in other["ecus"]:
+                        continue
+                    if e not in tgt["ecus"]:
+                        tgt["ecus"][e] = copy.deepcopy(other["ecus"][e])
+                    for f in frames_in_order(other):
+                        if e in f["transmitters"]:
+                            add_frame_copy(tgt, f, other)
+                    for f in frames_in_order(other):
+                        if any(e in sg["receivers"] for sg in f["signals"].values()):
+                            add_frame_copy(tgt, f, other)
+                else:
+                    for f in frames_in_order(other):
+                        if f["name"] == kv[1]:
+                            add_frame_copy(tgt, f, other)
+                            break
         tgt["_merged"] = True
     return tgt
 
@@ -517,6 +544,13 @@ def gen_input(rng, C, idx, big=False):
             break
     if idx % 2 == 0:
         db.add_ecu(C.Ecu("EUnused%d" % idx))
+    # an ECU that only receives
+    ro = C.Ecu("ERcvOnly")
+    db.add_ecu(ro)
+    for f in frames[:2]:
+        if f.signals:
+            f.signals[-1].add_receiver("ERcvOnly")
+            f.update_receiver()
     # zero-width signals, two adjacent ones in one frame
     for f in rng.sample(frames, min(2, len(frames))):
         used = {s.name for s in f.signals} | ({s.name for g in frames for s in g.signals} if idx % 4 == 0 else set())
@@ -645,7 +679,7 @@ class Runner:
 
 # ------------------------------------------------------------------------------------------------------------------
 # argument variations
-def single_cases(rng, st, other_path=None):
+def single_cases(rng, st, other_path=None, other_st=None):
     """[(option, argument, tag)] for one input description: comma lists, tuples, suffixes, thresholds at/below/above the
     existing lengths, empty selections, names that do not exist"""
     F = [f["name"] for f in frames_in_order(st)]
@@ -779,8 +813,18 @@ def single_cases(rng, st, other_path=None):
         add("deleteSignalAttributes", ",".join(sa[:2]), "list")
     add("deleteSignalAttributes", "NoSuchAttr", "missing")
     add("deleteObsoleteDefines", "", "switch")
-    if other_path:
+    if other_path and other_st:
         add("merge", other_path, "file")
+        OF = [f["name"] for f in frames_in_order(other_st)]
+        osend = [t for f in other_st["frames"].values() for t in f["transmitters"]]
+        orecv = {r for f in other_st["frames"].values() for sg in f["signals"].values() for r in sg["receivers"]}
+        OE = [e for e in other_st["ecus"] if e in osend and e in orecv] or list(other_st["ecus"])
+        add("merge", other_path + ":ecu=" + OE[0], "merge-ecu")
+        add("merge", other_path + ":frame=" + OF[-1], "merge-frame")
+        add("merge", other_path + ":frame=" + OF[0], "merge-frame-id-conflict")
+        add("merge", other_path + ":frame=FNope", "merge-frame-missing")
+        add("merge", other_path + ":ecu=ENope", "merge-ecu-missing")
+        add("merge", "%s:ecu=%s:frame=%s:frame=%s" % (other_path, OE[-1], OF[1], OF[-1]), "merge-ecu-and-frames")
     return cs
 
 
@@ -916,8 +960,6 @@ def strip_uids(groups):
 def cl_groups(opts):
     return [[10, KIND[k]] + codes("" if k in SWITCHES else v) for k, v in opts]
 
-
-EXC_CODE = {"ValueError": 0, "ArbitrationIdOutOfRange": 0, "AttributeError": 0, "IndexError": 0}
 
 
 def gen_tiny(rng, C, pdu=False):
@@ -1101,7 +1143,10 @@ def _run(chk, rng, thorough, ok, C, R, tmp):
         if fn["status"] != cl["status"] or (fn["status"] == "ok" and fn["bytes"] != cl["bytes"]) or \
                 (fn["status"] == "exc" and fn["exc"] != cl["exc"]):
             what = "function: %s %s / command line: %s %s" % (fn["status"], fn.get("exc", ""), cl["status"], cl.get("exc", ""))
-            fail = ("cli-vs-function", "the command line entry point and convert() disagree", "same result", what)
+            if cl.get("exc") == "NoSuchOption":
+                fail = ("cli-option-missing", "convert() implements the option, the command line does not declare it", "option accepted", what)
+            else:
+                fail = ("cli-vs-function", "the command line entry point and convert() disagree", "same result", what)
         nontrivial = False
         if exp is not None:
             nontrivial = bool(matgen.diff(view(finalize(st)), view(finalize({k: v for k, v in exp.items() if not k.startswith("_")}))))  \
@@ -1115,7 +1160,7 @@ def _run(chk, rng, thorough, ok, C, R, tmp):
                 if r.get("rc") not in (0, None):
                     fail = ("effect", "exit status", 0, r.get("rc"))
                 d = compare(exp, r["nf"])
-                if d and (fail is None or fail[0] == "cli-vs-function"):
+                if d and (fail is None or fail[0] in ("cli-vs-function", "cli-option-missing")):
                     fail = ("effect", "output differs from the documented effect (%d difference(s), first ones shown)" % len(d),
                             {x[0]: short(x[1], 300) for x in d[:6]},
                             dict(via="convert()" if how == "fn" else "cli_convert.main", **{x[0]: short(x[2], 300) for x in d[:6]}))
@@ -1152,7 +1197,7 @@ def _run(chk, rng, thorough, ok, C, R, tmp):
     sampled = 0
     for inp in inputs:
         in_db = R.load(inp["path"])
-        cases = single_cases(rng, inp["st"], inp["other_path"])
+        cases = single_cases(rng, inp["st"], inp["other_path"], inp["other_st"])
         if not thorough:
             # quick: every option and every tag once per input, thresholds thinned
             seen, keep = {}, []
@@ -1176,7 +1221,7 @@ def _run(chk, rng, thorough, ok, C, R, tmp):
                 sampled += 1
                 chk.sample(dict(input="in_%d.dbc (%d frames)" % (inp["idx"], len(inp["st"]["frames"])), option=opt, argument=arg, tag=tag))
             if fail is not None:
-                key = "cli-vs-function" if fail[0] == "cli-vs-function" else "opt-%s-effect" % opt
+                key = fail[0] if fail[0] in ("cli-vs-function", "cli-option-missing") else "opt-%s-effect" % opt
                 chk.violation(key, "--%s: %s" % (opt, fail[1]), replay_input(inp, opts), fail[2], fail[3])
             tie_direct(in_db, opts, res["fn"], dict(input=inp["idx"], options=opts))
 
@@ -1208,13 +1253,13 @@ def _run(chk, rng, thorough, ok, C, R, tmp):
                 sampled += 1
                 chk.sample(dict(input="in_%d.dbc" % inp["idx"], options=opts))
             if fail is not None:
-                key = "cli-vs-function" if fail[0] == "cli-vs-function" else "pair-%s-%s" % (a, b)
-                if fail[0] != "cli-vs-function":
+                key = fail[0] if fail[0] in ("cli-vs-function", "cli-option-missing") else "pair-%s-%s" % (a, b)
+                if fail[0] not in ("cli-vs-function", "cli-option-missing"):
                     # a pair inherits the failure of a member that already fails alone with the same argument
                     for m in (a, b):
                         if m not in single_ok:
                             f1, _, _, _ = judge(inp, [(m, args[m])], 0)
-                            single_ok[m] = f1 is None or f1[0] == "cli-vs-function"
+                            single_ok[m] = f1 is None or f1[0] in ("cli-vs-function", "cli-option-missing")
                         if not single_ok[m]:
                             key = "opt-%s-effect" % m
                             break
@@ -1228,7 +1273,7 @@ def _run(chk, rng, thorough, ok, C, R, tmp):
             inp = inputs[0]
             arg = "1" if opt == "frameIdIncrement" else "x"
             r = R.run(inp["path"], [(opt, arg)], "cli")
-            chk.violation("cli-vs-function", "--%s is implemented by convert() (and named in a help text) but the command line rejects it" % opt,
+            chk.violation("cli-option-missing", "--%s is implemented by convert() (and named in a help text) but the command line rejects it" % opt,
                           replay_input(inp, [(opt, arg)]), "option accepted", "%s %s" % (r.get("exc"), r.get("msg")))
 
     # ---- malformed arguments: both entry points must agree; the model says which raise ----
@@ -1244,7 +1289,10 @@ def _run(chk, rng, thorough, ok, C, R, tmp):
         chk.case(("malformed", opt, arg), res["fn"]["status"] == "exc")
         chk.count("malformed")
         chk.count("malformed-raises" if res["fn"]["status"] == "exc" else "malformed-accepted")
-        if res["fn"]["status"] != res["cli"]["status"] or res["fn"].get("exc") != res["cli"].get("exc") or \
+        if res["cli"].get("exc") == "NoSuchOption":
+            chk.violation("cli-option-missing", "--%s is implemented by convert() but the command line rejects it" % opt,
+                          replay_input(inp, opts), "option accepted", res["cli"].get("msg"))
+        elif res["fn"]["status"] != res["cli"]["status"] or res["fn"].get("exc") != res["cli"].get("exc") or \
                 res["fn"].get("bytes") != res["cli"].get("bytes"):
             chk.violation("cli-vs-function", "the command line entry point and convert() disagree on a malformed argument",
                           replay_input(inp, opts), "same result", "%s / %s" % (res["fn"].get("exc"), res["cli"].get("exc")))
@@ -1336,8 +1384,6 @@ def _run(chk, rng, thorough, ok, C, R, tmp):
         add_parse(1805, [[z]], [codes(str(z))], dict(str=z))
     add_parse(1806, [], [[KIND[k] for k in PIPELINE_ORDER[3:-1]]], dict(order="post_order"))
     chk.count("parse-cases", len(parse_lines))
-    for _ in range(len(parse_lines)):
-        pass
     chk.evaluations += len(parse_lines)
 
     # which reading of --ecus does the tree under test implement?  (search: the documented example must work)
@@ -1366,8 +1412,6 @@ def _run(chk, rng, thorough, ok, C, R, tmp):
                                   "cases": len(lines), "disagreements": bad_n, "explained_by_known_finding": explained}
     out = core.run_model(parse_lines)
     bad_n = 0
-    ecus_carry_bad = 0
-    ecus_reset_bad = 0
     for inf, e, o, l in zip(parse_info, parse_expect, out, parse_lines):
         if core.parse_out(o) != e:
             bad_n += 1
